@@ -476,7 +476,7 @@ func ruleFlagWrap(r *Run) {
 			}
 			for _, op := range r.mapOps(nf, path) {
 				writes++
-				r.CheckT("C4g", nf.Name+":verbatim", op.Kind == "write" && op.Key == "conv:featureflag.Flag(rangeval(param:flags))", path.Events[op.Idx].Pos, path,
+				r.CheckT("C4g", nf.Name+":verbatim", op.Kind == "write" && op.Key == "conv:featureflag.Flag(rangeval(param:#0))", path.Events[op.Idx].Pos, path,
 					"each configured name is entered into the flag set verbatim (key %s): a name that is not exactly a DISABLE_* constant must not act as one", op.Key)
 			}
 		}
